@@ -268,12 +268,33 @@ pub fn run(ctx: &Ctx) -> Report {
             // covered range: header through the end of the last integrity attribute
             let Ok(m) = wire::decode(buf) else { return acc };
             let end = m.attrs.iter().filter(|a| wire::is_integrity(a.typ)).map(|a| a.end()).max().unwrap_or(20);
+            // whoever can alter a message can also recompute the (unkeyed) FINGERPRINT behind the
+            // integrity attributes: every corrupted buffer of a fingerprinted message is judged as it
+            // is (the parser refuses it on the CRC) and once more with the CRC made right again, so
+            // that the verdict is the integrity check's
+            let fp_off = m.attrs.last().filter(|a| a.typ == wire::FP && a.offset >= end).map(|a| a.offset);
+            let refp = |b: &[u8]| -> Option<Vec<u8>> {
+                let fo = fp_off?;
+                if b.len() < fo + 8 {
+                    return None;
+                }
+                let v = wire::fingerprint_value(b, fo).to_be_bytes();
+                if b[fo + 4..fo + 8] == v {
+                    return None;
+                }
+                let mut b2 = b.to_vec();
+                b2[fo + 4..fo + 8].copy_from_slice(&v);
+                Some(b2)
+            };
             // (3) single-bit flips and all byte substitutions
             for pos in 0..end {
                 for bit in 0..8 {
                     let mut b = buf.clone();
                     b[pos] ^= 1 << bit;
-                    judge_guarded(judge, &Case::new("validate", b).text(&[&ct, "bitflip"]), &mut acc);
+                    if let Some(b2) = refp(&b) {
+                                judge_guarded(judge, &Case::new("validate", b2).text(&[&ct, "bitflip"]), &mut acc);
+                            }
+                            judge_guarded(judge, &Case::new("validate", b).text(&[&ct, "bitflip"]), &mut acc);
                 }
                 for v in 0..=255u8 {
                     if v == buf[pos] || (v ^ buf[pos]).count_ones() == 1 {
@@ -281,7 +302,10 @@ pub fn run(ctx: &Ctx) -> Report {
                     }
                     let mut b = buf.clone();
                     b[pos] = v;
-                    judge_guarded(judge, &Case::new("validate", b).text(&[&ct, "bytesub"]), &mut acc);
+                    if let Some(b2) = refp(&b) {
+                                judge_guarded(judge, &Case::new("validate", b2).text(&[&ct, "bytesub"]), &mut acc);
+                            }
+                            judge_guarded(judge, &Case::new("validate", b).text(&[&ct, "bytesub"]), &mut acc);
                 }
             }
             if thorough && *by_builder && i % 7 == 0 {
@@ -292,6 +316,9 @@ pub fn run(ctx: &Ctx) -> Report {
                             let mut b = buf.clone();
                             b[2 + lb / 8] ^= 1 << (lb % 8);
                             b[pos] ^= 1 << bit;
+                            if let Some(b2) = refp(&b) {
+                                judge_guarded(judge, &Case::new("validate", b2).text(&[&ct, "pair"]), &mut acc);
+                            }
                             judge_guarded(judge, &Case::new("validate", b).text(&[&ct, "pair"]), &mut acc);
                         }
                     }
@@ -328,6 +355,9 @@ pub fn run(ctx: &Ctx) -> Report {
                         if alt.len() == a.len && alt[..] != a.value[..] {
                             let mut b = buf.clone();
                             b[off + 4..off + 4 + a.len].copy_from_slice(&alt);
+                            if let Some(b2) = refp(&b) {
+                                judge_guarded(judge, &Case::new("validate", b2).text(&[&ct, "bytesub"]), &mut acc);
+                            }
                             judge_guarded(judge, &Case::new("validate", b).text(&[&ct, "bytesub"]), &mut acc);
                         }
                     }
@@ -342,7 +372,10 @@ pub fn run(ctx: &Ctx) -> Report {
                     if cross.len() == a.len && cross[..] != a.value[..] {
                         let mut b = buf.clone();
                         b[off + 4..off + 4 + a.len].copy_from_slice(&cross);
-                        judge_guarded(judge, &Case::new("validate", b).text(&[&ct, "bytesub"]), &mut acc);
+                        if let Some(b2) = refp(&b) {
+                                judge_guarded(judge, &Case::new("validate", b2).text(&[&ct, "bytesub"]), &mut acc);
+                            }
+                            judge_guarded(judge, &Case::new("validate", b).text(&[&ct, "bytesub"]), &mut acc);
                     }
                 }
             }
@@ -364,7 +397,7 @@ pub fn run(ctx: &Ctx) -> Report {
     Report {
         acc,
         exhaustive: true,
-        rule: "8 bodies x fingerprint yes/no x 8 credentials x {SHA-1, SHA-256, both} sealed by the real builder (build(), and write_into() a used buffer before / after into_owned()); reference-serialised messages with SHA-256 truncated to 12..36 bytes, MI256-before-MI order and mixed correctness; on each: every single-bit flip and every byte value at every position from offset 0 through the end of the last integrity attribute, plausible alternative HMAC values in each integrity attribute (other length fields, other ranges, the other hash), up to 25 near-miss keys (case, trailing space / NUL, prefixes of 16/20/32/63/64/65/128 bytes, other credential kind, swapped parts); decorated credentials (quotes, blanks, trailing dot, mixed case, non-ASCII in each part) with their cleaned forms as alternative keys; key-length sweep: short-term passwords of every length 0..=140 and long-term credentials with parts of 0..200 bytes x {SHA-1, SHA-256, both} x {builder, reference serialiser}; unsealed bodies x 8 credentials; distinct_nontrivial = sealed buffers".into(),
+        rule: "8 bodies x fingerprint yes/no x 8 credentials x {SHA-1, SHA-256, both} sealed by the real builder (build(), and write_into() a used buffer before / after into_owned()); reference-serialised messages with SHA-256 truncated to 12..36 bytes, MI256-before-MI order and mixed correctness; on each: every single-bit flip and every byte value at every position from offset 0 through the end of the last integrity attribute, plausible alternative HMAC values in each integrity attribute (other length fields, other ranges, the other hash), every corrupted buffer of a fingerprinted message also with its FINGERPRINT recomputed, up to 25 near-miss keys (case, trailing space / NUL, prefixes of 16/20/32/63/64/65/128 bytes, other credential kind, swapped parts); decorated credentials (quotes, blanks, trailing dot, mixed case, non-ASCII in each part) with their cleaned forms as alternative keys; key-length sweep: short-term passwords of every length 0..=140 and long-term credentials with parts of 0..200 bytes x {SHA-1, SHA-256, both} x {builder, reference serialiser}; unsealed bodies x 8 credentials; distinct_nontrivial = sealed buffers".into(),
         bounds: json!({"sealed_buffers": n_sealed, "unsealed": unsealed.len(), "faults": if thorough { "single bit, all byte values, length-bit x any-bit pairs" } else { "single bit, all byte values" }}),
         assumptions: vec!["HMAC-SHA1/SHA-256 collision resistance (no forgery that needs to break the MAC is explored)".into(), "keys outside the alternative-key alphabet are not explored".into()],
         ..Default::default()
